@@ -1726,6 +1726,51 @@ impl Runner for ServiceRunner {
                 ));
                 out.push("ok".into());
             }
+            // the life of the process-wide permit / ban lists around the start of a node: entries made through
+            // the node's own API after it was constructed are there when it has been started, and when it has
+            // been shut down and started again
+            ["sboot", seed] => {
+                let seed: u64 = seed.parse().unwrap_or(1);
+                let Some(enr) = build_rec(seed, 1, "4", 0) else { return noop(out) };
+                let rt = self.rt.as_ref().unwrap();
+                let _g = rt.enter();
+                discv5::verif::limiter::permit_ban_reset();
+                let cfg = ConfigBuilder::new(ListenConfig::Ipv4 { ip: Ipv4Addr::UNSPECIFIED, port: 9000 }).build();
+                let Ok(mut d) = Discv5::new(enr, key_of(seed), cfg) else { return noop(out) };
+                let n1 = NodeId::new(&id_of_seed(seed + 1));
+                let n2 = NodeId::new(&id_of_seed(seed + 2));
+                let ip1 = IpAddr::V4(Ipv4Addr::new(192, 0, 2, (seed % 200 + 1) as u8));
+                let ip2 = IpAddr::V4(Ipv4Addr::new(198, 51, 100, (seed % 200 + 1) as u8));
+                d.ban_node(&n1, if seed % 2 == 0 { None } else { Some(Duration::from_secs(3600)) });
+                d.ban_ip(ip1, Some(Duration::from_secs(3600)));
+                d.permit_node(&n2);
+                d.permit_ip(ip2);
+                let complete = |stage: &str, out: &mut Vec<String>| {
+                    let snap = discv5::verif::limiter::permit_ban_snapshot();
+                    let ok = snap.ban_nodes.iter().any(|(n, _)| *n == n1)
+                        && snap.ban_ips.iter().any(|(i, _)| *i == ip1)
+                        && snap.permit_nodes.contains(&n2)
+                        && snap.permit_ips.contains(&ip2);
+                    if !ok {
+                        out.push(format!("!MON C18 bans-or-permits-made-through-the-api-lost-{}", stage));
+                    }
+                };
+                complete("before-the-start", out);
+                let started = d.start_scripted().is_ok();
+                complete("when-the-node-was-started", out);
+                d.shutdown();
+                rt.block_on(async { tokio::task::yield_now().await });
+                let restarted = d.start_scripted().is_ok();
+                complete("when-the-node-was-started-again", out);
+                d.shutdown();
+                discv5::verif::limiter::permit_ban_reset();
+                self.ban_prev_ips.clear();
+                self.ban_prev_nodes.clear();
+                stats.bump("s.c18.node-booted-with-api-made-entries");
+                if started && restarted { stats.bump("s.c18.node-started-twice"); }
+                out.push("!OP snop".into());
+                out.push("ok".into());
+            }
             _ if !self.insts.contains_key(&x) && t[0] != "sbans" => noop(out),
             // an address is put on the permit list (packets from it always pass the filter; misbehaviour
             // is recorded all the same)
@@ -3529,6 +3574,12 @@ pub fn gen_case(rng: &mut Rng, tier: &str, profile: &str, stats: &mut Stats) -> 
     }
     if profile == "C16" {
         gen_c16(rng, &mut ops, stats);
+        return ops;
+    }
+    if profile == "C18boot" {
+        stats.bump("gen.c18.boot");
+        ops.push(format!("sboot {}", rng.range(1, 900)));
+        if rng.chance(1, 2) { ops.push(format!("sboot {}", rng.range(1, 900))); }
         return ops;
     }
     if profile == "C09cutoff" {
